@@ -1,3 +1,4 @@
+pub mod c02;
 pub mod c05;
 pub mod c06;
 pub mod c07;
@@ -8,7 +9,7 @@ pub mod c19;
 use crate::framework::Check;
 
 pub fn all() -> Vec<&'static dyn Check> {
-    vec![&c05::C05, &c06::C06, &c07::C07, &c08::C08, &c16::C16, &c16::C17, &c19::C19]
+    vec![&c02::C02, &c05::C05, &c06::C06, &c07::C07, &c08::C08, &c16::C16, &c16::C17, &c19::C19]
 }
 
 pub fn by_id(id: &str) -> Option<&'static dyn Check> {
